@@ -183,7 +183,7 @@ type hold[T any] struct {
 
 func TestPropE2EActions(t *testing.T) {
 	ev.Check(t, func(rt *rapid.T) {
-		switch rapid.SampledFrom([]string{"redirect", "direct", "headers", "headers", "headers", "rewrite", "rewrite", "timeout", "retry", "retry", "retry", "retry-connect", "retry-global-timeout"}).Draw(rt, "scenario") {
+		switch rapid.SampledFrom([]string{"redirect", "direct", "headers", "headers", "headers", "rewrite", "rewrite", "timeout", "try-timeout", "retry", "retry", "retry", "retry-connect", "retry-global-timeout"}).Draw(rt, "scenario") {
 		case "redirect":
 			redirectCase(rt)
 		case "direct":
@@ -194,6 +194,8 @@ func TestPropE2EActions(t *testing.T) {
 			rewriteCase(rt)
 		case "timeout":
 			timeoutCase(rt)
+		case "try-timeout":
+			tryTimeoutCase(rt)
 		case "retry":
 			retryCase(rt)
 		case "retry-connect":
@@ -717,6 +719,98 @@ func timeoutCase(rt *rapid.T) {
 		src[i] = c.String()
 	}
 	fail(rt, "timeout/wrong-source-applied", "%s: expected the %s timeout to apply, e2eObserved %s after %v (%s), three times", desc, src[want], src[fired], el, detail)
+}
+
+// tryTimeoutCase: the per-try timeout has sources of its own - the route's retry_policy.retry_timeout and the request
+// header x-mosn-try-timeout, the header winning - and it applies whatever the source of the global timeout is, the
+// default included. The first attempt stalls (its reply comes after 2.6 s); with one retry allowed the per-try timer
+// that applies shows in WHEN the second attempt reaches an upstream and the client is answered: two candidates 5x
+// apart, lower edge exact (a timer never fires early). Without any per-try timeout the first attempt's late reply (or
+// the route's 2 s global timeout) ends the request.
+func tryTimeoutCase(rt *rapid.T) {
+	tryCand := []time.Duration{80 * time.Millisecond, 400 * time.Millisecond}
+	perm := rapid.Permutation([]int{0, 1}).Draw(rt, "assignment")
+	hasRouteTry := rapid.Bool().Draw(rt, "routeTryTimeout")
+	hasHdrTry := rapid.Bool().Draw(rt, "headerTryTimeout")
+	global := rapid.SampledFrom([]string{"default", "default", "route", "header"}).Draw(rt, "globalSource") // where set: 2 s
+	routeTry, hdrTry := tryCand[perm[0]], tryCand[perm[1]]
+	want := -1
+	switch {
+	case hasHdrTry:
+		want = perm[1]
+	case hasRouteTry:
+		want = perm[0]
+	}
+	desc := fmt.Sprintf("Http1: retry_on num_retries=1, route retry_timeout %v (set=%v), x-mosn-try-timeout %v (set=%v), global timeout from %s, first attempt stalls", routeTry, hasRouteTry, hdrTry, hasHdrTry, global)
+	srcs := 0
+	for _, b := range []bool{hasRouteTry, hasHdrTry} {
+		if b {
+			srcs++
+		}
+	}
+	ev.Case(partE2E, srcs >= 1, []byte("try-timeout|"+desc), func() interface{} { return desc },
+		"kind:try-timeout", fmt.Sprintf("try-timeout:sources=%d", srcs), "try-timeout:global="+global)
+
+	// fired: index of the candidate after which the second attempt was made, -1 none (the first attempt's fate decided)
+	measure := func() (fired int, el time.Duration, detail string) {
+		ups := newUpstreams(2, func(n int, r *seenReq) upAction {
+			if n == 0 {
+				return upAction{Kind: "reply", Delay: 2600 * time.Millisecond, Body: "attempt-0-late"}
+			}
+			return upAction{Kind: "reply", Body: fmt.Sprintf("attempt-%d", n)}
+		})
+		defer ups.Close()
+		rp := &v2.RetryPolicy{RetryPolicyConfig: v2.RetryPolicyConfig{RetryOn: true, NumRetries: 1}}
+		if hasRouteTry {
+			rp.RetryTimeout = routeTry
+		}
+		o := mesh.Opts{Down: "Http1", Up: "Http1", Hosts: ups.addrs(), Retry: rp}
+		if global == "route" {
+			o.Timeout = 2 * time.Second
+		}
+		cs, err := mesh.NewCaseBound(o)
+		if err != nil {
+			rt.Skip("rig: " + err.Error())
+		}
+		defer cs.Close()
+		var hdr [][2]string
+		if hasHdrTry {
+			hdr = append(hdr, [2]string{"x-mosn-try-timeout", strconv.Itoa(int(hdrTry / time.Millisecond))})
+		}
+		if global == "header" {
+			hdr = append(hdr, [2]string{"x-mosn-global-timeout", "2000"})
+		}
+		t0 := time.Now()
+		res := do1(cs.Addr, "GET", "/tt", "h.example", hdr, waitDeadline)
+		if res.Err != nil {
+			return -2, res.Elapsed, "no response: " + res.Err.Error()
+		}
+		log := ups.Log()
+		if len(log) >= 2 {
+			at := log[1].At.Sub(t0)
+			detail = fmt.Sprintf("status %d body %q after %v, second attempt at %v", res.Status, res.Body, res.Elapsed, at)
+			switch {
+			case at >= tryCand[1]-5*time.Millisecond && at < 1900*time.Millisecond:
+				return 1, at, detail
+			case at >= tryCand[0]-5*time.Millisecond && at < tryCand[1]-5*time.Millisecond:
+				return 0, at, detail
+			}
+			return -3, at, detail
+		}
+		return -1, res.Elapsed, fmt.Sprintf("status %d body %q after %v, one attempt", res.Status, res.Body, res.Elapsed)
+	}
+	var fired int
+	var el time.Duration
+	var detail string
+	for try := 0; try < 3; try++ { // a late timer under load can leave its band: re-measured up to 2 times
+		fired, el, detail = measure()
+		if fired == want {
+			return
+		}
+		ev.Class(partE2E, "try-timeout:remeasured")
+	}
+	src := map[int]string{-1: "none", -2: "no response", -3: "outside every band", 0: tryCand[0].String(), 1: tryCand[1].String()}
+	fail(rt, "timeout/wrong-try-timeout-applied", "%s: expected the per-try timeout %s to apply, observed %s (%v; %s), three times", desc, src[want], src[fired], el, detail)
 }
 
 // ---------------------------------------------------------------- retry
